@@ -2451,3 +2451,67 @@ package sdf
 //@   let dq = r.Evaluate(q)
 //@   ensures [one-lipschitz-whatever-the-number-of-operands] !isnil(r) ==> sq(dp - dq) <= p.Sub(q).Length2()
 //@ end
+
+//@ func ArraySDF2.Evaluate
+//@   property C01
+//@   id value-of-the-operand-at-one-grid-offset
+//@   pure
+//@   local
+//@   requires s.num.X >= 1 && s.num.Y >= 1
+//@   requires forall a float64, b float64 :: s.min(a, b) == min(a, b)
+//@   requires forall q v2.Vec :: s.sdf.Evaluate(q) <= math.MaxFloat64
+//@   invariant 0 0 <= j && j <= s.num.X
+//@   invariant 0 exists wj int, wk int :: (j == 0 && d == math.MaxFloat64) || (0 <= wj && wj < j && 0 <= wk && wk < s.num.Y && d == s.sdf.Evaluate(p.Sub(v2.Vec{real(wj)*s.step.X, real(wk)*s.step.Y})))
+//@   witnesses 1 j, k - 1
+//@   invariant 1 0 <= k && k <= s.num.Y && 0 <= j && j < s.num.X
+//@   invariant 1 exists wj int, wk int :: (j == 0 && k == 0 && d == math.MaxFloat64) || (0 <= wj && wj <= j && 0 <= wk && wk < s.num.Y && (wj < j || wk < k) && d == s.sdf.Evaluate(p.Sub(v2.Vec{real(wj)*s.step.X, real(wk)*s.step.Y})))
+//@   ensures [the-result-is-the-operand-evaluated-at-the-point-moved-back-by-one-grid-offset] exists wj int, wk int :: 0 <= wj && wj < s.num.X && 0 <= wk && wk < s.num.Y && r == s.sdf.Evaluate(p.Sub(v2.Vec{real(wj)*s.step.X, real(wk)*s.step.Y}))
+//@ end
+
+//@ func Array2D
+//@   property C01
+//@   id ENC
+//@   summarise ArraySDF2.Evaluate value-of-the-operand-at-one-grid-offset
+//@   forall p v2.Vec
+//@   requires ord2(sdf.BoundingBox())
+//@   requires forall q v2.Vec :: enc2(sdf, q) && sdf.Evaluate(q) <= math.MaxFloat64
+//@   let d = r.Evaluate(p)
+//@   ensures [no-copies-no-shape] (num.X <= 0 || num.Y <= 0) <==> isnil(r)
+//@   ensures [ordered] !isnil(r) ==> ord2(r.BoundingBox())
+//@   ensures [encloses-every-copy] !isnil(r) && d < 0 ==> r.BoundingBox().Contains(p)
+//@ end
+
+//@ spec off3(s *ArraySDF3, p v3.Vec, j int, k int, l int) = p.Sub(v3.Vec{real(j)*s.step.X, real(k)*s.step.Y, real(l)*s.step.Z})
+
+//@ func ArraySDF3.Evaluate
+//@   property C01
+//@   id value-of-the-operand-at-one-grid-offset
+//@   pure
+//@   local
+//@   requires s.num.X >= 1 && s.num.Y >= 1 && s.num.Z >= 1
+//@   requires forall a float64, b float64 :: s.min(a, b) == min(a, b)
+//@   requires forall q v3.Vec :: s.sdf.Evaluate(q) <= math.MaxFloat64
+//@   witnesses 0 j - 1, s.num.Y - 1, s.num.Z - 1
+//@   invariant 0 0 <= j && j <= s.num.X
+//@   invariant 0 exists wj int, wk int, wl int :: (j == 0 && d == math.MaxFloat64) || (0 <= wj && wj < j && 0 <= wk && wk < s.num.Y && 0 <= wl && wl < s.num.Z && d == s.sdf.Evaluate(off3(s, p, wj, wk, wl)))
+//@   witnesses 1 j, k - 1, s.num.Z - 1
+//@   invariant 1 0 <= k && k <= s.num.Y && 0 <= j && j < s.num.X
+//@   invariant 1 exists wj int, wk int, wl int :: (j == 0 && k == 0 && d == math.MaxFloat64) || (0 <= wj && wj <= j && 0 <= wk && wk < s.num.Y && 0 <= wl && wl < s.num.Z && (wj < j || wk < k) && d == s.sdf.Evaluate(off3(s, p, wj, wk, wl)))
+//@   witnesses 2 j, k, l - 1
+//@   invariant 2 0 <= l && l <= s.num.Z && 0 <= k && k < s.num.Y && 0 <= j && j < s.num.X
+//@   invariant 2 exists wj int, wk int, wl int :: (j == 0 && k == 0 && l == 0 && d == math.MaxFloat64) || (0 <= wj && wj <= j && 0 <= wk && wk < s.num.Y && 0 <= wl && wl < s.num.Z && (wj < j || wk < k || (wk == k && wl < l)) && d == s.sdf.Evaluate(off3(s, p, wj, wk, wl)))
+//@   ensures [the-result-is-the-operand-evaluated-at-the-point-moved-back-by-one-grid-offset] exists wj int, wk int, wl int :: 0 <= wj && wj < s.num.X && 0 <= wk && wk < s.num.Y && 0 <= wl && wl < s.num.Z && r == s.sdf.Evaluate(off3(s, p, wj, wk, wl))
+//@ end
+
+//@ func Array3D
+//@   property C01
+//@   id ENC
+//@   summarise ArraySDF3.Evaluate value-of-the-operand-at-one-grid-offset
+//@   forall p v3.Vec
+//@   requires ord3(sdf.BoundingBox())
+//@   requires forall q v3.Vec :: enc3(sdf, q) && sdf.Evaluate(q) <= math.MaxFloat64
+//@   let d = r.Evaluate(p)
+//@   ensures [no-copies-no-shape] (num.X <= 0 || num.Y <= 0 || num.Z <= 0) <==> isnil(r)
+//@   ensures [ordered] !isnil(r) ==> ord3(r.BoundingBox())
+//@   ensures [encloses-every-copy] !isnil(r) && d < 0 ==> r.BoundingBox().Contains(p)
+//@ end
